@@ -19,7 +19,7 @@ class C01(PureCheck):
     warm_every = 2
     rule = ("every attribute record (9 fg x 9 bg x {absent,False,True}^6; quick: all 5,184 records without "
             "explicit False + sampled False variants) built through fmtstr(text, **kwargs) with 7 texts "
-            "(empty, ASCII, controls, wide+combining, a combining mark / ZWJ alone in its run), one run of 4095 / 4096 / 5000 / 65537 characters, sums sharing an already rendered left operand, every subset of the styles switched on with the int 1 instead of True, runs of blanks only under every single attribute and fg + each other attribute, every C0 (without ESC) / DEL / C1 (without CSI) control character first, last and alone in a run, plus values that come out of the parser (FmtStr.from_str / fmtstr on every string of <=3 items over text and SGR / cursor-home sequences, closed or left open), plus multi-run values built with + (empty runs "
+            "(empty, ASCII, controls, wide+combining, a combining mark / ZWJ alone in its run), one run of 4095 / 4096 / 5000 / 65537 characters, empty runs between visible runs carrying either neighbour's or other attributes, sums sharing an already rendered left operand, every subset of the styles switched on with the int 1 instead of True, runs of blanks only under every single attribute and fg + each other attribute, every C0 (without ESC) / DEL / C1 (without CSI) control character first, last and alone in a run, plus values that come out of the parser (FmtStr.from_str / fmtstr on every string of <=3 items over text and SGR / cursor-home sequences, closed or left open), plus multi-run values built with + (empty runs "
             "included); str(f) is lexed and the token list validated by TLC (Sgr.tla stream terminal). "
             "distinct_nontrivial = distinct (attribute records of all runs, text lengths) with at least one "
             "rendered attribute")
@@ -96,6 +96,14 @@ class C01(PureCheck):
             for text in ([c, 97], [97, c], [c]):
                 yield {"runs": [[list(text), a]]}
                 yield {"runs": [[[120], a], [list(text), [0] * 8], [[121], [0, 2, 0, 0, 2, 0, 0, 0]]]}
+        # empty runs between visible runs, carrying the attributes of the run before them, of the run after them, or others
+        pool = [[0] * 8, [2, 0, 0, 0, 0, 0, 0, 0], [5, 0, 0, 0, 0, 0, 0, 0], [0, 3, 0, 0, 0, 0, 0, 0], [0, 0, 2, 0, 0, 0, 0, 0], [2, 0, 2, 0, 0, 0, 0, 0],
+                [0, 0, 1, 0, 0, 0, 0, 0], [2, 4, 0, 0, 0, 2, 0, 0]]
+        for X in pool:
+            for Y in pool:
+                for Z in (X, Y, pool[(pool.index(X) + pool.index(Y) + 1) % len(pool)]):
+                    yield {"runs": [[[97], list(X)], [[], list(Z)], [[98], list(Y)]]}
+                    yield {"runs": [[[97], list(X)], [[], list(Z)], [[], list(Y)], [[98], list(Y)], [[], list(X)], [[99], list(X)]]}
         # sums that share an already rendered left operand
         for k in range(300 if tier == "quick" else 3000):
             runs = []
